@@ -10,7 +10,7 @@ RULE = ("Bounded-exhaustive: every function body of AST size <= S (nesting <= 3,
         "generator, compiled by each present interpreter; every branch/swallow decision path (DFS over decision "
         "prefixes, <= 7 decisions); extract() and contexts_active_in_frame() at every suspension (including inside "
         "__aenter__/__aexit__) compared with the program's own shadow list of entered-not-exited managers "
-        "(identity, order, is_async, is_exiting, start_line, varname; no InspectionWarning, no Stack.error). "
+        "(identity, order, is_async, is_exiting, start_line, varname; no InspectionWarning, no Stack.error); bodies of size <= 3 (thorough 4) are run a second time with one re-entrant manager object per kind serving every with-block of the program. "
         "evaluations = observations; distinct_nontrivial = distinct (program, kind, interpreter) containing a with and "
         "a suspension.")
 ASSUMPTIONS = [
@@ -114,8 +114,22 @@ def run(ctx):
         ctx.count("distinct_nontrivial")
         ctx.count("paths", npaths)
         ctx.count("evaluations", nobs)
-    g = ps.grammar(p["grammar"])
     idx = 0
+    # the same shapes with ONE re-entrant manager object per kind serving every with-block (AST size <= 3 quick / 4 thorough)
+    g3 = ps.grammar("core")
+    for body in ps.programs(g3, 3 if ctx.tier == "quick" else 4, p["depth"]):
+        for kind in KINDS:
+            if not ps.kind_ok(body, kind) or not ps.nontrivial(body, kind):
+                continue
+            idx += 1
+            if not ctx.mine(idx):
+                continue
+            npaths, nobs = run_program(body, kind, ctx, make_observer, ns=ps.NS_REENTRANT)
+            ctx.count("reentrant_programs")
+            ctx.count("distinct_nontrivial")
+            ctx.count("paths", npaths)
+            ctx.count("evaluations", nobs)
+    g = ps.grammar(p["grammar"])
     for body in ps.programs(g, p["size"], p["depth"]):
         for kind in KINDS:
             if not ps.kind_ok(body, kind):
